@@ -589,6 +589,9 @@ class FuncAnalysis:
             nr = node_of(r)
             if nr is not None:
                 s.ret.add(nr)
+        if not self.fi.is_module_body and self.model.memoised(self.fi.qual) and s.ret:
+            # functools.lru_cache / cache: every caller with equal arguments receives the SAME object
+            s.ret.add(("G", f"<memoised results of {self.fi.qual}>", 0))
         for (tgt, v) in self.store_edges:
             if tgt[0] == "P":
                 nv = node_of(v)
